@@ -45,7 +45,9 @@ func refEncodeBurn(version uint32, token, mintRecipient, amount32, sender []byte
 	return out
 }
 
-func producerLemma(idx int, p string, eventsMayFail bool) { producerLemmaAfter(idx, p, eventsMayFail, -1) }
+func producerLemma(idx int, p string, eventsMayFail bool) {
+	producerLemmaAfter(idx, p, eventsMayFail, -1)
+}
 
 // producerLemmaAfter: before >= 0 first lets a different keeper instance successfully execute
 // transaction `before` on an arbitrary other state in the same process.
@@ -53,7 +55,7 @@ func producerLemmaAfter(idx int, p string, eventsMayFail bool, before int) {
 	if before >= 0 {
 		a := c18exec(before, "other_", "other_")
 		verifrt.Assume(a.ok)
-		verifrt.Cover("producer/other-instance-ran-first")
+		verifrt.Cover("C18/other-instance-ran-first")
 	}
 	h := newH("")
 	c := producerCaps()
